@@ -46,6 +46,7 @@ static void scenario(const vh::Json& sc, vh::Out& out, vh::Rng& rng, const vh::A
                   long o, wd, unk; if (idx == mut["layer"].num() && tag_field(p, o, wd, unk) && p->inner_pdu()) { for (long k = 0; k < wd; ++k) b[off0 + o + k] = (uint8_t)(unk >> (8 * (wd - 1 - k))); applied = true; } }
               delete p0; } catch (std::exception&) {}
     }
+    if (!b0.empty() && mut["k"].str() == "lie") { long pos = mut["layer"].num(); if (pos < (long)b.size() && b[pos] != (uint8_t)mut["n"].num()) { b[pos] = (uint8_t)mut["n"].num(); applied = true; } }   // one octet replaced
     if (!b0.empty() && mut["k"].str() == "trail") { for (long k = 0; k < mut["n"].num(); ++k) b.push_back(0xEE); applied = true; }
     w.kv("applied", applied).kbytes("b", b);
     bool accepted = false; std::string outcome = "none";
